@@ -498,7 +498,8 @@ def run(ctx):
         cases.append({"name": "shape:" + n, "text": SHAPES[n][0], "expect": SHAPES[n][1], "config": config(None), "targets": TARGETS})
     for i in range(ctx.n(12, 400)):
         r = random.Random(f"{ctx.seed}/c01/{i}")
-        cases.append({"name": f"random:{i}", "text": closed_program(r), "expect": None, "config": config(r), "targets": TARGETS})
+        cases.append({"name": f"random:{i}", "text": closed_program(r), "expect": None, "config": config(r), "targets": TARGETS,
+                      "judge_sources": (not ctx.quick) or i % 3 == 0})
     for i in range(ctx.n(10, 150)):
         r = random.Random(f"{ctx.seed}/c01/kw/{i}")
         cases.append({"name": f"keyword:{i}", "text": keyword_program(r), "expect": None, "config": config(r), "targets": ["cpp", "java"], "judge_sources": False})
